@@ -32,6 +32,7 @@ type fixedInit struct{ t *ref.T }
 func (f fixedInit) Init(shape []int) (tensor.Tensor, error) { return rt.Leaf(f.t, true) }
 
 func runC16(c *fw.Ctx) {
+	deeperBounds(!c.Quick())
 	for B := 1; B <= 6; B++ {
 		for D := 1; D <= 6; D++ {
 			for O := 1; O <= 6; O++ {
